@@ -80,13 +80,14 @@ func VH_C14_contain() {
 	}
 	outBefore := m.Snapshot(out)
 	srcBefore := m.Snapshot(src)
+	allBefore := m.SnapshotAll()
 	m.ClearOps()
 
-	nSP, nDP := 5, 4
+	nSP, nDP := 7, 4
 	if mode == 1 {
 		nSP, nDP = 2, 2
 	}
-	srcPath := []string{".", "f", "d", "sl", "sl/g"}[v.Choose("src-path", nSP)]
+	srcPath := []string{".", "f", "d", "sl", "sl/g", "..", "d/.."}[v.Choose("src-path", nSP)]
 	dstPath := []string{".", "x", "d", "x/y"}[v.Choose("dst-path", nDP)]
 	ci := CopyInfo{CopyDirContents: v.Bool("dir-contents"), AlwaysReplaceExistingDestPaths: v.Bool("always-replace")}
 	if mode != 1 {
@@ -107,6 +108,19 @@ func VH_C14_contain() {
 	}
 	v.Assert(vh_snapEqual(outBefore, m.Snapshot(out)), "nothing outside the destination root is created, changed or removed")
 	v.Assert(vh_snapEqual(srcBefore, m.Snapshot(src)), "the source tree is not modified")
+	// nothing appears next to the roots either (the parent directory of the destination root included)
+	var outsideBefore, outsideAfter []m.Entry
+	for _, e := range allBefore {
+		if e.Path != "dst" && !vh_isUnder(e.Path, "dst") {
+			outsideBefore = append(outsideBefore, e)
+		}
+	}
+	for _, e := range m.SnapshotAll() {
+		if e.Path != "dst" && !vh_isUnder(e.Path, "dst") {
+			outsideAfter = append(outsideAfter, e)
+		}
+	}
+	v.Assert(len(outsideBefore) == len(outsideAfter), "no entry appears or disappears outside the destination root (its parent directory included)")
 	for _, op := range m.Ops() {
 		if op.Kind == "read" {
 			v.Assert(vh_isUnder(op.Path, src), "file content is only read inside the source root")
